@@ -76,6 +76,20 @@ def show(ast):
         return '(%s%s)' % (', '.join(kids), ',' if len(kids) == 1 else '')
     if op in ('pipe', 'spec', 'fill', 'auto'):
         return '%s(%s)' % (op.capitalize(), ', '.join(kids))
+    if op == 'inspect':
+        return 'Inspect(%s, recursive=%s, echo=%s%s%s)' % (kids[0], ast['rec'], ast['echo'],
+                                                         ', breakpoint=' + ast['bp'] if ast['bp'] else '',
+                                                         ', post_mortem=' + ast['pm'] if ast['pm'] else '')
+    if op == 'set':
+        return ('frozenset({%s})' if ast['frozen'] else '{%s}' if kids else 'set(%s)') % ', '.join(kids)
+    if op == 'sget':
+        return 'S.%s' % ast['name'] if ast['form'] == '.' else 'S[%r]' % ast['name']
+    if op == 'sset':
+        return 'S(%s)' % ', '.join('%s=%s' % nk for nk in zip(ast['names'], kids))
+    if op == 'aset':
+        return 'A.%s' % ast['name']
+    if op == 'specs':
+        return 'Spec(%s, scope={%s})' % (kids[0], ', '.join('%r: %s' % (n, showv(v)) for n, v in ast['scope']))
     if op == 'ref':
         return 'Ref(%r%s)' % (ast['name'], ', ' + kids[0] if ast['def'] else '')
     if op == 'coalesce':
@@ -175,7 +189,12 @@ def REFDEF(kid):
 
 
 def leaky(ast):
-    return ast['op'] in ('fill', 'auto') or (ast['op'] == 'ref' and ast['def'])
+    return ast['op'] in ('fill', 'auto', 'specs') or (ast['op'] == 'ref' and ast['def']) \
+        or (ast['op'] == 'inspect' and ast['rec'])
+
+
+def has_inspect(ast):
+    return ast['op'] == 'inspect' or any(has_inspect(p) for p in parts(ast))
 
 
 # ---- random targets ---------------------------------------------------------------------------------
@@ -261,6 +280,9 @@ class Gen:
         self.run = run
         self.in_ref = 0
         self.in_fill = 0
+        self.in_rec_inspect = 0
+        self.names = []            # scope names that may be in force (for S.x leaves)
+        self.top_scope = []
 
     # what the guide knows about a target: a python object
     def obj(self, v):
@@ -269,10 +291,13 @@ class Gen:
     def guide(self, ast, tgt):
         """result object of the real library on (tgt, ast), or a marker when it fails / is a sentinel"""
         import glom
+        glom.core.print = lambda *a: None        # (Inspect(echo=True) in a guide run must stay silent)
         try:
             r = self.run(ast, tgt, self.heap)
         except Exception:
             return ('fail',)
+        finally:
+            del glom.core.print
         if r is glom.SKIP:
             return ('skip',)
         if r is glom.STOP:
@@ -280,13 +305,30 @@ class Gen:
         return ('ok', r)
 
     def spec(self, root, d):
+        if self.rng.random() < 0.12:
+            self.top_scope = [['v', VI(9)]]
+            self.names = ['v']
         return self.gen(self.obj(root), d)
+
+    def top_opts(self):
+        """top-level arguments of the glom() call: default / skip_exc / scope"""
+        rng = self.rng
+        o = {'dflt': [], 'skipexc': [], 'scope': self.top_scope}
+        r = rng.random()
+        if r < 0.12:
+            o['dflt'] = [rng.choice([VI(7), NONE, SKIP, VS('s')])]
+        if 0.08 < r < 0.2:
+            o['skipexc'] = [rng.choice([['KeyError'], ['ValueError', 'TypeError'], ['Exception'], ['GlomError'],
+                                        ['LookupError'], []])]
+        return o
 
     # -- leaves ------------------------------------------------------------------------------------
     def leaf(self, tgt):
         rng = self.rng
         if rng.random() < 0.22:
             return rng.choice(ODD_LEAVES)
+        if rng.random() < (0.25 if self.names else 0.02):
+            return {'op': 'sget', 'name': rng.choice(self.names + ['w']), 'form': rng.choice('.[')}
         if isinstance(tgt, dict) and tgt:
             k = rng.choice(list(tgt.keys()))
             if isinstance(k, str) and k and '.' not in k:
@@ -348,6 +390,11 @@ class Gen:
         if d <= 1 or rng.random() < 0.3:
             return rng.choice([self.leaf(tgt), P('a'), C(VI(3)), TT(), F('ident')])
         r = rng.random()
+        if r < 0.1:
+            kid = self.fill_template(tgt, 1)
+            if kid['op'] in ('dict', 'list', 'set'):
+                kid = TT()
+            return {'op': 'set', 'kids': [kid] if rng.random() < 0.8 else [], 'frozen': rng.random() < 0.5}
         if r < 0.35:
             return N('list', [self.fill_template(tgt, d - 1) for _ in range(rng.randint(0, 3))])
         if r < 0.6:
@@ -362,6 +409,10 @@ class Gen:
         if d <= 1:
             return self.leaf(tgt)
         kinds = ['dict', 'dict', 'chain', 'chain', 'coalesce', 'coalesce', 'spec', 'call', 'invoke', 'leaf']
+        if not self.in_rec_inspect:
+            kinds += ['inspect']
+        if not chain_step:
+            kinds += ['specs']
         if isinstance(tgt, (list, tuple, dict)):
             kinds += ['list', 'list', 'list']
         if not chain_step:
@@ -374,6 +425,30 @@ class Gen:
 
     def g_leaf(self, tgt, d):
         return self.leaf(tgt)
+
+    def g_inspect(self, tgt, d):
+        rng = self.rng
+        rec = rng.random() < 0.35
+        if rec:
+            self.in_rec_inspect += 1        # (an Inspect below a recursive Inspect never returns: reported)
+        try:
+            kid = self.gen(tgt, d - 1)
+        finally:
+            if rec:
+                self.in_rec_inspect -= 1
+        if rec and has_inspect(kid):
+            rec = False
+        hooks = rng.random() < 0.3
+        return {'op': 'inspect', 'kids': [kid], 'rec': rec, 'echo': rng.random() < 0.7,
+                'bp': rng.choice(['mk0', 'echo', 'mk0', 'raise_KeyError']) if hooks and rng.random() < 0.7 else '',
+                'pm': rng.choice(['mk0', 'echo', 'raise_ValueError']) if hooks and rng.random() < 0.7 else ''}
+
+    def g_specs(self, tgt, d):
+        self.names.append('v')
+        try:
+            return {'op': 'specs', 'kids': [self.gen(tgt, d - 1)], 'scope': [['v', self.rng.choice([VI(5), NONE, VS('u')])]]}
+        finally:
+            self.names.pop()
 
     def g_spec(self, tgt, d):
         return W('spec', self.gen(tgt, d - 1))
@@ -418,7 +493,16 @@ class Gen:
         steps = []
         cur = tgt
         n = rng.randint(1, 3)
+        pushed = 0
         for i in range(n):
+            if i < n - 1 and rng.random() < 0.15:
+                # a step that binds a scope name for the rest of the chain: S(v=arg) / A.v
+                name = rng.choice(['v', 'w'])
+                steps.append({'op': 'aset', 'name': name} if rng.random() < 0.4 else
+                             {'op': 'sset', 'names': [name], 'kids': [self.arg(cur, max(1, d - 2))]})
+                self.names.append(name)
+                pushed += 1
+                continue
             st = self.gen(cur, d - 1, chain_step=(i < n - 1))
             if rng.random() < 0.15:
                 # a chain nested directly in the chain, ended / thinned by a sentinel at an inner position
@@ -433,6 +517,8 @@ class Gen:
                 cur = g[1]
             elif g[0] in ('fail', 'stop') and rng.random() < 0.7:
                 break
+        for _ in range(pushed):
+            self.names.pop()
         if rng.random() < 0.08:
             steps = []
         return N('pipe' if rng.random() < 0.4 and steps else 'tuple', steps)
